@@ -52,6 +52,7 @@ class Profile:
         self.thrs = [150, 200, 300, 400, 1000, 0, 0]
         self.ivs = [None, None, None, None, 1, 5, 7]
         self.dump = 0.0                # probability of a raw dump after a mutating step
+        self.ixdump = 0.0              # probability of reading the persisted fast index (label, entries, stamps) for the index machine
         self.check_all_versions = 0.3  # probability of a full sweep of all retained versions after a step
         self.big = 0.0                 # probability of a "big tree" history (up to 60 keys)
         self.empty_out = 0.0           # probability that the history ends by removing every key and pruning everything
@@ -401,6 +402,8 @@ class Hist:
                 self.emit("replaycs")
         if r.random() < p.dump:
             self.emit("dump")
+        if r.random() < p.ixdump:
+            self.emit("ixdump")
         if r.random() < p.check_all_versions:
             self.sweep()
 
@@ -535,14 +538,26 @@ class Hist:
             # the other order: position the tree on the version that will be the latest, delete everything
             # above it, and go on with this tree object (no reload afterwards)
             self.emit("load %d" % (v - 1))
-            self.emit("delfrom %d" % v)
-            for u in list(self.versions):
-                if u >= v:
-                    del self.versions[u]
             self.base = v - 1
             self.working = dict(self.versions[self.base])
             self.curlog = []
             self.dirty = False
+            # ... possibly with uncommitted writes on that tree object when the deletion happens: they stay
+            # uncommitted (K36: the index rebuilt by the deletion must describe the committed version)
+            dirty_first = r.random() < 0.5
+            if dirty_first:
+                for _ in range(r.randint(1, 3)):
+                    self.one_write()
+            self.emit("delfrom %d" % v)
+            for u in list(self.versions):
+                if u >= v:
+                    del self.versions[u]
+            if dirty_first:
+                self.emit("ixdump")
+                self.sweep()
+                if r.random() < 0.5:
+                    self.rollback()
+                    self.sweep()
             self.read_ops(2)
             return
         self.emit("delfrom %d" % v)
